@@ -150,6 +150,16 @@ def r19_2(run):
         if n is not None:
             yielded = any(isinstance(a, ast.Yield) for a in node_asts(n))
             run.ob('R19.2', tc, n.ast, '%s is awaited' % want, yielded, slot='ownership-awaited:%s' % want.split()[0], message='%s reply is not awaited' % want)
+    ys = g.nodes_where(lambda n: any(isinstance(a, (ast.Yield, ast.YieldFrom)) for a in node_asts(n)))
+    own = [cmds.get('TAKEOWNERSHIP'), cmds.get('RESETCONF __OwningControllerProcess')]
+    for r in reg:
+        for o in own:
+            if o is None:
+                continue
+            between = [y for y in ys if y not in (r, o) and y not in own and g.dominates(r, y) and o in g.reachable([s_ for _, s_ in y.succ]) and not g.dominates(o, y)]
+            run.ob('R19.2', tc, o.ast, 'ownership is requested before anything else is awaited once bootstrap progress can be heard', not between, slot='ownership-first:%s' % src(o.ast)[:40],
+                   message='_tor_connected awaits %s between arming the STATUS_CLIENT listener and %s: a 100%% event in that window '
+                           'announces success on a connection that has not requested ownership' % ([src(y.ast)[:50] for y in between][:1], src(o.ast)[:50]))
     # outReceived: connect once, when the control listener is open
     orv = PU(run, 'outReceived')
     go = cfg_of(orv)
